@@ -29,6 +29,9 @@ def run_shard(ctx, spec):
     ex = hj.Explorer(mon, rnd)
     ex.fine_bars = bool(spec.get('fine'))
     ex.float_heights = bool(spec.get('float'))
+    hj.KW['on'] = bool(spec.get('kw'))
+    if spec.get('kw'):
+        ctx.count('eval.shards-with-start-list-details')
     if spec.get('bibs'):
         ex.use_bibs(spec['bibs'])
         ctx.count('eval.shards-with-bibs-%s' % spec['bibs'])
@@ -69,6 +72,8 @@ def shards(tier, seed):
         s += [{'w': 'walk', 'walks': 80, 'i': 130, 'bibs': 'int0'}, {'w': 'walk', 'walks': 80, 'i': 131, 'bibs': 'zeros'},
               {'w': 'bfs', 'nj': 2, 'reg': 1, 'jo': 1, 'i': 0, 'n': 1, 'bibs': 'int0'}]
         s += [{'w': 'probe', 'walks': 300 if i % 2 == 0 else 900, 'i': 200 + i, 'jo': i % 2} for i in range(16)]
+        s += [{'w': 'walk', 'walks': 60, 'i': 230, 'kw': True}, {'w': 'bfs', 'nj': 2, 'reg': 1, 'jo': 1, 'i': 0, 'n': 1, 'kw': True},
+              {'w': 'jumpoff', 'walks': 300, 'i': 231, 'kw': True}]
         return s
     # (2 athletes, 2+2) is explored completely (374 k distinct states); the deeper / wider spaces are cut per shard
     s = [{'w': 'bfs', 'nj': 2, 'reg': 2, 'jo': 2, 'i': i, 'n': 32, 'split': 4} for i in range(32)]
@@ -84,6 +89,7 @@ def shards(tier, seed):
     s += [{'w': 'jumpoff', 'walks': 5000, 'i': 170 + i} for i in range(16)]
     s += [{'w': 'bfs', 'nj': 2, 'reg': 2, 'jo': 1, 'i': i, 'n': 4, 'bibs': 'int0'} for i in range(4)]
     s += [{'w': 'probe', 'walks': 6000, 'i': 200 + i, 'jo': i % 2} for i in range(16)]
+    s += [{'w': 'walk', 'walks': 1250, 'i': 230 + i, 'kw': True} for i in range(2)] + [{'w': 'jumpoff', 'walks': 3000, 'i': 234 + i, 'kw': True} for i in range(2)]
     return s
 
 
@@ -92,13 +98,15 @@ def replay(ctx, cases):
     mon = hj.Monitor(ctx, rules=True, final=True, replay=False)
     from decimal import Decimal
     for c in cases:
+        hj.KW['on'] = bool(c.get('jumper_kwargs'))
+        hj.KW['bibs'] = []
         comp = mon.H()
         for m, a in c['history'] + [c['call']]:
             try:
                 if m == 'read':
                     hj.READERS[a](comp)
                 elif m == 'add_jumper':
-                    comp.add_jumper(bib=a)
+                    hj.add(comp, a)
                 elif m == 'set_bar_height':
                     comp.set_bar_height(Decimal(a))
                 else:
